@@ -590,6 +590,9 @@ class IntDomain(TagDomain):
     return _E
 
 
+_DATA_FACT = {}
+
+
 def rule_int_safe(repo, rep, only=None):
   R = 'DTYPE:integer-data-safe-inplace'
   rep.rule(R, 'no in-place arithmetic (x /= e, x **= e, x op= <float>, '
@@ -610,7 +613,14 @@ def rule_int_safe(repo, rep, only=None):
       for p, d in init.defaults().items():
         if isinstance(d, ast.Constant) and isinstance(d.value, float):
           hf.add(p)
-    dom = IntDomain(hf)
+    # what the validators hand out for integer input is decided on the
+    # validator itself (c06b.validated_dtype); only an int-preserving
+    # validator makes the data arrays 'mayint'
+    global _DATA_FACT
+    if _DATA_FACT.get(id(repo)) is None:
+      from . import c06b
+      _DATA_FACT[id(repo)] = c06b.validated_dtype(repo)[0]
+    dom = IntDomain(hf, data_float=(_DATA_FACT[id(repo)] == 'float'))
     Engine(repo, dom, self_cls=c).run(f)
     n += 1
     key = c.name + '.fit'
@@ -686,6 +696,13 @@ def rule_int_arith(repo, rep, methods=None, closure=True):
       for (what, s_, fn) in dom.arith:
         k = (fn.key if fn else f.key, what, s_)
         found.setdefault(k, []).append('%s.%s' % (c.name, m))
+      # a cast to the dtype of integer-typed data truncates (the precise form
+      # of "no cast to another values array's dtype": a float source is fine)
+      for (what, s_, fn) in dom.problems:
+        if what.startswith('cast to the dtype'):
+          k = (fn.key if fn else f.key, 'cast to the integer dtype of the '
+               'data', s_)
+          found.setdefault(k, []).append('%s.%s' % (c.name, m))
   rep.floor('(estimator, method) entry points analysed for arithmetic in '
             'the data dtype', n, 100 if methods == list(DATA_METHODS) else 1)
   by_func = {}
@@ -785,7 +802,9 @@ def check(repo, rep, tier):
   from . import c06b
   c06b.rule_validation_table(repo, rep)
   c06b.rule_validate_vector(repo, rep)
-  c06b.rule_no_cross_dtype_cast(repo, rep)
+  # (the text rule on `.astype(<other>.dtype)` was removed: it fired on casts
+  # to the dtype of data that are known to be floating point; the cast check
+  # of the dtype flow above is the precise form)
   # the indices are interpreted by the preprocessor of THIS fit: the wrapper
   # is rebuilt on every fit (typestate rule of C17, preprocessor_ only)
   from . import c17
